@@ -3,6 +3,7 @@ package main
 // Abstract configurations, schemata and histories for C04, and their generator.
 
 import (
+	"fmt"
 	"sort"
 
 	"hclverif/hv"
@@ -106,6 +107,15 @@ var attrPool = []string{"a", "b", "c", "d", "e", "f"}
 var blockPool = []string{"blk", "foo", "bar", "svc"}
 var labelPool = []string{"l1", "l2", "l3", "l1", "l2", "//"}
 
+// block types with long headers (every case's type_labels table has them)
+var deepPool = []string{"deep", "wide", "octo"}
+var deepLabels = map[string]int{"deep": 4, "wide": 6, "octo": 8}
+
+// sibling names of a label family (distinct picks at one label level)
+var famLabelPool = []string{"l1", "l2", "l3", "l4", "l5", "k", "m", "n-1", "//", "p.q"}
+
+const manyLabelsMin = 4 // a header is "long" from this label count on
+
 const sharedName = "x" // may be an attribute in one place and a block type in another
 
 type gen struct {
@@ -114,9 +124,84 @@ type gen struct {
 	// label count per block type for the current case
 	typeLabels map[string]int
 	allowDyn   bool
+	// many-labels stream: the case has label FAMILIES (blocks of one long-header
+	// type whose label vectors form a tree with several siblings at every level)
+	many    bool
+	famLeft int // families still allowed in this case
 }
 
 func (g *gen) f(k string) { g.feat[k]++ }
+
+// longTypes: the block types of the current case with >= manyLabelsMin labels.
+func (g *gen) longTypes() []string {
+	var out []string
+	for _, t := range append(append([]string{}, blockPool...), deepPool...) {
+		if g.typeLabels[t] >= manyLabelsMin {
+			out = append(out, t)
+		}
+	}
+	return out
+}
+
+// pickBlockType draws the type of a block / dynamic block.
+func (g *gen) pickBlockType() string {
+	if g.many && g.r.Chance(0.45) {
+		lt := g.longTypes()
+		return lt[g.r.Intn(len(lt))]
+	}
+	if g.r.Chance(0.05) {
+		return deepPool[g.r.Intn(len(deepPool))]
+	}
+	return blockPool[g.r.Intn(len(blockPool))]
+}
+
+// labelFamily draws the label vectors of a family of blocks with k labels, in
+// depth-first order of a label TREE: along a random spine every level has 2-4
+// sibling names (also the innermost one, so some blocks differ only in the last
+// label); side branches mostly continue as chains, sometimes fork again; a few
+// vectors occur twice (several block instances under one innermost label) and a
+// sibling name may come back after another one (a repeated key at that level).
+func (g *gen) labelFamily(k int) [][]string {
+	var out [][]string
+	var rec func(prefix []string, level int, spine bool)
+	rec = func(prefix []string, level int, spine bool) {
+		if level == k {
+			n := 1
+			if g.r.Chance(0.12) {
+				n = 2
+			}
+			for i := 0; i < n; i++ {
+				out = append(out, append([]string{}, prefix...))
+			}
+			return
+		}
+		fan := 1
+		switch {
+		case len(out) > 12:
+		case spine:
+			fan = 2
+			if g.r.Chance(0.25) {
+				fan = 3 + g.r.Intn(2)
+			}
+		case g.r.Chance(0.2):
+			fan = 2
+		}
+		perm := g.r.Perm(len(famLabelPool))
+		names := make([]string, fan)
+		for i := range names {
+			names[i] = famLabelPool[perm[i]]
+		}
+		if fan >= 3 && g.r.Chance(0.15) {
+			names[fan-1] = names[0]
+		}
+		on := g.r.Intn(fan)
+		for i, nm := range names {
+			rec(append(append([]string{}, prefix...), nm), level+1, spine && i == on)
+		}
+	}
+	rec(nil, 0, true)
+	return out
+}
 
 func (g *gen) labels(n int) []string {
 	out := make([]string, n)
@@ -132,6 +217,13 @@ func (g *gen) freshTypeLabels() {
 		k := g.r.Small(3)
 		g.typeLabels[t] = k
 	}
+	for _, t := range deepPool {
+		g.typeLabels[t] = deepLabels[t]
+	}
+	if g.many {
+		// one of the ordinary types gets a long header too (4..8: also the odd counts)
+		g.typeLabels[blockPool[g.r.Intn(len(blockPool))]] = manyLabelsMin + g.r.Intn(5)
+	}
 }
 
 // genCfg generates an abstract body. exact=true keeps every block of a type at
@@ -144,6 +236,7 @@ func (g *gen) genCfg(depth int, exact bool) *Cfg {
 	}
 	usedAttr := map[string]bool{}
 	usedBlock := map[string]bool{}
+	nfam := 0
 	for i := 0; i < n; i++ {
 		if g.r.Chance(0.5) {
 			name := attrPool[g.r.Intn(len(attrPool))]
@@ -157,9 +250,18 @@ func (g *gen) genCfg(depth int, exact bool) *Cfg {
 			c.Items = append(c.Items, Item{Attr: name, Val: 1 + g.r.Intn(9)})
 			continue
 		}
+		if g.many && g.famLeft > 0 && g.r.Chance(0.45) {
+			g.addFamily(c, depth, exact)
+			usedBlock[c.Items[len(c.Items)-1].Type] = true
+			nfam++
+			continue
+		}
 		if g.allowDyn && g.r.Chance(0.22) {
-			t := blockPool[g.r.Intn(len(blockPool))]
+			t := g.pickBlockType()
 			k := g.typeLabels[t]
+			if k >= manyLabelsMin {
+				g.f("cfg:dynamic-block-with>=4-labels")
+			}
 			d := &DynSpec{N: g.r.Intn(4)}
 			if k > 0 {
 				d.HasLabels = true
@@ -196,7 +298,7 @@ func (g *gen) genCfg(depth int, exact bool) *Cfg {
 			g.f("cfg:dynamic-block")
 			continue
 		}
-		t := blockPool[g.r.Intn(len(blockPool))]
+		t := g.pickBlockType()
 		if g.r.Chance(0.1) && !usedAttr[sharedName] {
 			t = sharedName
 		}
@@ -218,7 +320,33 @@ func (g *gen) genCfg(depth int, exact bool) *Cfg {
 		usedBlock[t] = true
 		c.Items = append(c.Items, Item{Type: t, Labels: g.labels(k), Body: body})
 	}
+	if depth == 0 && g.many && g.famLeft > 0 && nfam == 0 && g.r.Chance(0.8) {
+		g.addFamily(c, depth, exact)
+	}
 	return c
+}
+
+// addFamily appends a label family: consecutive blocks of one long-header type.
+func (g *gen) addFamily(c *Cfg, depth int, exact bool) {
+	g.famLeft--
+	lt := g.longTypes()
+	t := lt[g.r.Intn(len(lt))]
+	fam := g.labelFamily(g.typeLabels[t])
+	for _, ls := range fam {
+		body := &Cfg{}
+		switch {
+		case depth < 1 && g.r.Chance(0.08):
+			body = g.genCfg(depth+1, exact)
+		case g.r.Chance(0.3):
+			body.Items = []Item{{Attr: attrPool[g.r.Intn(len(attrPool))], Val: 1 + g.r.Intn(9)}}
+		}
+		c.Items = append(c.Items, Item{Type: t, Labels: ls, Body: body})
+	}
+	g.f("cfg:label-family")
+	g.f(fmt.Sprintf("cfg:label-family:labels=%d", g.typeLabels[t]))
+	if depth > 0 {
+		g.f("cfg:label-family-in-nested-body")
+	}
 }
 
 // genSchema draws a total schema related to the given configurations and splits
@@ -393,6 +521,11 @@ func partsDisjoint(parts []Schema) bool {
 
 // genCase draws a whole case.
 func (g *gen) genCase() *CaseSpec {
+	g.many = g.r.Chance(0.14)
+	g.famLeft = 0
+	if g.many {
+		g.f("stream:many-labels")
+	}
 	g.freshTypeLabels()
 	cs := &CaseSpec{}
 	shape := g.r.Intn(100)
@@ -475,6 +608,9 @@ func (g *gen) genCase() *CaseSpec {
 			}
 		}
 		exact := syntax == "json" || g.r.Chance(0.5)
+		if g.many {
+			g.famLeft = 1 + g.r.Intn(3)/2 // per file
+		}
 		cfg := g.genCfg(0, exact)
 		fs := FileSpec{Syntax: syntax, Cfg: cfg, TypeLabels: g.typeLabels}
 		if syntax == "json" {
@@ -530,6 +666,11 @@ func (g *gen) genChildSchema() Schema {
 				k++
 			}
 			s.Blocks = append(s.Blocks, SBlock{Type: t, Labels: k})
+		}
+	}
+	for _, t := range deepPool {
+		if g.r.Chance(0.2) || (g.many && g.r.Chance(0.5)) {
+			s.Blocks = append(s.Blocks, SBlock{Type: t, Labels: g.typeLabels[t]})
 		}
 	}
 	return s
